@@ -128,6 +128,10 @@ func (h ErrorHandler) recovery(w http.ResponseWriter, r *http.Request) {
 	if rec == nil {
 		return
 	}
+	if rec == http.ErrAbortHandler {
+		// not an accident: the handler aborts a response it cannot complete
+		panic(rec)
+	}
 
 	// Obtain source of panic
 	// From: https://gist.github.com/swdunlop/9629168
